@@ -211,7 +211,7 @@ def run(ck):
     from . import c06
     c06.get_dictionary_guard(ck, P, "GUARD/get-dictionary")
     from .. import condparity
-    ck.floor("SIB/ref-conditions", condparity.check(ck, P, "SIB/ref-conditions", only={"deflate.c:deflateSetDictionary", "inflate.c:inflateSetDictionary"}), 6)
+    ck.floor("SIB/ref-conditions", condparity.check(ck, P, "SIB/ref-conditions", only={"deflate.c:deflateGetDictionary", "inflate.c:inflateGetDictionary", "deflate.c:deflateSetDictionary", "inflate.c:inflateSetDictionary"}), 6)
     from .. import refwrites
     ck.floor("SIB/ref-writes", refwrites.check(ck, P, "SIB/ref-writes", only={"deflate.c:deflateSetDictionary", "inflate.c:inflateSetDictionary"}), 10)
     ck.assumptions += ["rustc MIR", "host target; K1"]
